@@ -205,7 +205,11 @@ class SMILEVisitor(NodeVisitor):
         return {"name":sanitizeName(node.text.lower()), "type": 'identifier'}
 
     def visit_NamespacedIdentifier(self, node, visited_children):
-        return {"name": sanitizeName(node.text.lower()), "type": 'identifier'}
+        text = node.text.lower()
+        # ".name" addresses the root model: keep the leading separator, makeExpressionAbsolute resolves it
+        if text.startswith("."):
+            return {"name": "." + sanitizeName(text[1:]), "type": 'identifier'}
+        return {"name": sanitizeName(text), "type": 'identifier'}
 
     '''
     Operators
